@@ -13,6 +13,7 @@ CONSTANTS
   HkSet = {FALSE}
   CondSet <- NoCondSet
   CSet = {0}
+  ModeKinds = {"none"}
 INVARIANT Reporter
 CHECK_DEADLOCK FALSE
 """
